@@ -201,11 +201,23 @@ impl Gen {
         if self.extra_permille == 0 || self.rng.below(1000) >= self.extra_permille {
             return None;
         }
-        let n = self.rng.below(9) as usize;
-        let extra: Vec<u8> = (0..n).map(|_| self.rng.below(256) as u8).collect();
+        let k = match self.rng.below(10) {
+            0..=6 => 1,
+            7 | 8 => 2,
+            _ => 3,
+        };
+        let mut b = bytes.to_vec();
+        for _ in 0..k {
+            let n = self.rng.below(9) as usize;
+            let extra: Vec<u8> = (0..n).map(|_| self.rng.below(256) as u8).collect();
+            b = add_extra_field(&b, &extra);
+        }
         self.extras_inserted += 1;
         self.count("tables_with_extra_field");
-        Some(add_extra_field(bytes, &extra))
+        if k > 1 {
+            self.count("tables_with_several_extra_fields");
+        }
+        Some(b)
     }
 }
 
@@ -235,3 +247,82 @@ pub fn add_extra_field(bytes: &[u8], extra: &[u8]) -> Vec<u8> {
     out.extend_from_slice(extra);
     out
 }
+
+/// one byte-level mutation of an encoding; returns the mutant and the mutation class
+pub fn mutate(r: &mut Rng, b: &[u8], is_table: bool) -> (Vec<u8>, &'static str) {
+    let mut v = b.to_vec();
+    let words = b.len() / 4;
+    let pick_word = |r: &mut Rng| -> usize {
+        if words == 0 {
+            0
+        } else if r.chance(2, 3) {
+            r.below(std::cmp::min(words, 24) as u64) as usize
+        } else {
+            r.below(words as u64) as usize
+        }
+    };
+    let k = r.below(16);
+    match k {
+        0..=5 if words > 0 => {
+            let w = pick_word(r) * 4;
+            let x = rd32(&v[w..]);
+            let (nx, tag) = match k {
+                0 => (x.wrapping_add(1), "u32+1"),
+                1 => (x.wrapping_sub(1), "u32-1"),
+                2 => (x.wrapping_add(4), "u32+4"),
+                3 => (x.wrapping_sub(4), "u32-4"),
+                4 => (0, "u32=0"),
+                _ => (if r.chance(1, 2) { 0xffff_ffff } else { b.len() as u32 }, "u32=extreme"),
+            };
+            v[w..w + 4].copy_from_slice(&nx.to_le_bytes());
+            (v, tag)
+        }
+        6 | 7 if !b.is_empty() => {
+            let p = r.below(b.len() as u64) as usize;
+            v[p] ^= 1 << r.below(8);
+            (v, "bitflip")
+        }
+        8 | 9 if !b.is_empty() => {
+            let p = if r.chance(1, 3) { b.len() - 1 } else { r.below(b.len() as u64) as usize };
+            v.truncate(p);
+            (v, "truncate")
+        }
+        10 | 11 => {
+            let n = r.range(1, 4);
+            for _ in 0..n {
+                v.push(if r.chance(1, 2) { 0 } else { r.below(256) as u8 });
+            }
+            (v, "extend")
+        }
+        12 if b.len() >= 4 => {
+            // extend and fix the total size word: only the inner structure is wrong
+            let n = r.range(1, 4) as usize;
+            for _ in 0..n {
+                v.push(0);
+            }
+            let l = v.len() as u32;
+            v[0..4].copy_from_slice(&l.to_le_bytes());
+            (v, "extend+fix-total")
+        }
+        13 | 14 if is_table && b.len() >= 4 && rd32(b) as usize == b.len() && (b.len() == 4 || (rd32(&b[4..]) as usize) <= b.len() && rd32(&b[4..]) >= 8 && rd32(&b[4..]) % 4 == 0) => {
+            let n = r.below(6) as usize;
+            let extra: Vec<u8> = (0..n).map(|_| r.below(256) as u8).collect();
+            (add_extra_field(b, &extra), "extra-table-field")
+        }
+        _ => {
+            if b.len() >= 8 {
+                // swap two words
+                let a = pick_word(r) * 4;
+                let c = pick_word(r) * 4;
+                let (x, y) = (rd32(&v[a..]), rd32(&v[c..]));
+                v[a..a + 4].copy_from_slice(&y.to_le_bytes());
+                v[c..c + 4].copy_from_slice(&x.to_le_bytes());
+                (v, "swap-words")
+            } else {
+                v.push(0);
+                (v, "extend")
+            }
+        }
+    }
+}
+
